@@ -5,6 +5,7 @@ import (
 	"fmt"
 	"sync"
 	"time"
+	"verif/ref"
 
 	"github.com/gebn/bmc"
 	"github.com/gebn/bmc/pkg/dcmi"
@@ -28,6 +29,10 @@ func RacePass(n, iters int) error {
 			cfg.DeviceID = append([]byte{}, cfg.DeviceID...)
 			cfg.DeviceID[0] = byte(0x40 + g)
 			cfg.SystemGUID = arr16(byte(g), 7)
+			// sensor names in the two packed ID-string encodings, different per BMC
+			cfg.Repo.Recs = append(cfg.Repo.Recs,
+				ref.SDRRec{ID: uint16(0x200 + g), Data: fsrBytesPacked(uint16(0x200+g), byte(g), 1, pattern(9+g%3, byte(g), 3))},
+				ref.SDRRec{ID: uint16(0x300 + g), Data: fsrBytesPacked(uint16(0x300+g), byte(g), 2, pattern(7+g%4, byte(0x21+g*5), 7))})
 			cfg.Password = []byte(fmt.Sprintf("pw-%d", g))
 			u, err := newUDPBMC(cfg)
 			if err != nil {
@@ -78,8 +83,18 @@ func raceBody(g, it int, u *udpBMC) error {
 	switch (g + it) % 3 {
 	case 0:
 		repo, err := bmc.RetrieveSDRRepository(ctx, sess)
-		if err != nil || len(repo) != 2 {
+		if err != nil || len(repo) != 4 {
 			return fmt.Errorf("RetrieveSDRRepository: %d records, %v", len(repo), err)
+		}
+		var wantB, want6 []rune
+		for _, v := range pattern(9+g%3, byte(g), 3) {
+			wantB = append(wantB, refBCDPlus[v&0xf])
+		}
+		for _, v := range pattern(7+g%4, byte(0x21+g*5), 7) {
+			want6 = append(want6, rune(0x20+v&0x3f))
+		}
+		if b, s6 := repo[ipmi.RecordID(0x200+g)], repo[ipmi.RecordID(0x300+g)]; b == nil || s6 == nil || b.Identity != string(wantB) || s6.Identity != string(want6) {
+			return fmt.Errorf("RetrieveSDRRepository: packed sensor names %+v %+v, the BMC serves %q and %q", b, s6, string(wantB), string(want6))
 		}
 	case 1:
 		p, err := dcmi.NewSessionCommander(sess).GetPowerReading(ctx, &dcmi.GetPowerReadingReq{Mode: dcmi.SystemPowerStatisticsModeNormal})
